@@ -72,7 +72,7 @@ func (s *Service) Attest(ctx context.Context, duty *attester.Duty) ([]*phase0.At
 
 	// Set the per-validator information.
 	validatorIndexToArrayIndexMap := make(map[phase0.ValidatorIndex]int)
-	for i, index := range validatorIndices {
+	for i, index := range duty.ValidatorIndices() {
 		validatorIndexToArrayIndexMap[index] = i
 	}
 	committeeIndices := make([]phase0.CommitteeIndex, len(validatingAccounts))
